@@ -108,8 +108,12 @@ def vpsc_line(inst, x, cost, unsat):
         ",".join(fr(v) for v in x), fr(cost), ",".join(map(str, unsat)))
 
 
+_plain = {}
+
+
 def run_exact_hint(inst):
-    """the real solver in exact arithmetic, continued until a pass performs no split: candidate optimum + multipliers"""
+    """(also leaves the plain exact result of solve() — positions, returned cost, flagged — in `_plain`, for the vpsc correspondence)
+    the real solver in exact arithmetic, continued until a pass performs no split: candidate optimum + multipliers"""
     vpsc, vs, cs = build(inst, True)
     orig_dfdv = vpsc.Variable.dfdv
     orig_split = vpsc.Block.split
@@ -129,8 +133,9 @@ def run_exact_hint(inst):
         signal.signal(signal.SIGALRM, _alarm)
         signal.alarm(20)
         try:
-            solver.solve()
+            cost0 = solver.solve()
             before = [v.position() for v in vs]
+            _plain["x"], _plain["cost"], _plain["unsat"] = before, cost0, [i for i, c in enumerate(cs) if c.unsatisfiable]
             extra = 0
             for _ in range(60):
                 count["n"] = 0
@@ -168,6 +173,7 @@ def one_case(inst, rep):
     except Exception as e:
         rep.prop_fail.append(("solve() raised %s: %s" % (type(e).__name__, e), {"case": meta})); return None
     xs, lam, before, extra = [], [], None, 0
+    _plain.clear()
     if inst["kind"] != "cyclic":
         try:
             before, xs, lam, extra, flagged = run_exact_hint(inst)
@@ -186,7 +192,10 @@ def one_case(inst, rep):
     meta["vpsc_line"] = None
     if len(inst["d"]) <= 40:
         try:
-            ex, ecost, eunsat = run_exact_plain(inst)
+            if "x" in _plain:
+                ex, ecost, eunsat = _plain["x"], _plain["cost"], _plain["unsat"]
+            else:
+                ex, ecost, eunsat = run_exact_plain(inst)
             meta["vpsc_line"] = vpsc_line(inst, ex, ecost, eunsat)
         except (Timeout, RecursionError):
             rep.count("exact-run-timeout")
